@@ -159,6 +159,7 @@ type Rec struct {
 	InLoop  bool      // inside a loop within Ctx
 	Env     *Env
 	Depth   int
+	Stack   []*ast.CallExpr // inlining call stack (call sites of closures/helpers leading here)
 }
 
 // SubSite is a call of Observable.Subscribe[WithContext] / Connect[WithContext].
@@ -266,6 +267,7 @@ type frame struct {
 	depth   int
 	via     []string
 	fnNode  ast.Node // function being walked (for return handling)
+	stack   []*ast.CallExpr
 }
 
 type walker struct {
@@ -337,7 +339,7 @@ func (w *walker) rec(n ast.Node, fr frame) Rec {
 	if !fr.inlined {
 		bp = n.Pos()
 	}
-	return Rec{SC: w.sc, Pkg: fr.env.Pkg, Ctx: fr.ctx, Slot: fr.slot, Pos: n.Pos(), BasePos: bp, InLoop: fr.loop > 0, Env: fr.env, Depth: fr.depth}
+	return Rec{SC: w.sc, Pkg: fr.env.Pkg, Ctx: fr.ctx, Slot: fr.slot, Pos: n.Pos(), BasePos: bp, InLoop: fr.loop > 0, Env: fr.env, Depth: fr.depth, Stack: fr.stack}
 }
 
 func children(n ast.Node, f func(ast.Node)) {
@@ -499,7 +501,7 @@ func (w *walker) ret(x *ast.ReturnStmt, fr frame) {
 	tr := &TeardownRet{Rec: w.rec(x, fr), Expr: e, Val: av}
 	if av.Kind == AVFunc {
 		tr.Body = w.newCtx(KTeardown, fr.ctx, fr.slot, x, tr.BasePos, fr.loop > 0, fr.via)
-		w.enterFunc(av, nil, x, frame{ctx: tr.Body, slot: -1, depth: fr.depth, via: fr.via})
+		w.enterFunc(av, nil, x, frame{ctx: tr.Body, slot: -1, depth: fr.depth, via: fr.via, stack: fr.stack})
 	}
 	w.sc.Teardowns = append(w.sc.Teardowns, tr)
 }
@@ -535,7 +537,7 @@ func (w *walker) goStmt(x *ast.GoStmt, fr frame) {
 		for _, a := range args {
 			avs = append(avs, w.eval(a, fr))
 		}
-		w.enterFunc(fn, avs, x, frame{ctx: body, slot: -1, depth: fr.depth, via: fr.via})
+		w.enterFunc(fn, avs, x, frame{ctx: body, slot: -1, depth: fr.depth, via: fr.via, stack: fr.stack})
 	} else {
 		w.sc.Unknown = append(w.sc.Unknown, fmt.Sprintf("go statement with unresolved function at %s", w.m.Prog.Rel(x.Pos())))
 	}
@@ -638,6 +640,9 @@ func (w *walker) bindAndWalk(fn *AV, args []*AV, at ast.Node, fr frame) {
 	fr.env = env
 	fr.depth++
 	fr.fnNode = node
+	if c, ok := at.(*ast.CallExpr); ok {
+		fr.stack = append(append([]*ast.CallExpr{}, fr.stack...), c)
+	}
 	if fn.Decl != nil {
 		fr.via = append(append([]string{}, fr.via...), name)
 	}
@@ -755,7 +760,7 @@ func (w *walker) call(call *ast.CallExpr, fr frame, deferred bool) {
 			w.sc.Timers = append(w.sc.Timers, ts)
 			fn := w.eval(call.Args[1], fr)
 			if fn.Kind == AVFunc {
-				w.enterFunc(fn, nil, call, frame{ctx: ts.Body, slot: -1, depth: fr.depth, via: fr.via})
+				w.enterFunc(fn, nil, call, frame{ctx: ts.Body, slot: -1, depth: fr.depth, via: fr.via, stack: fr.stack})
 			} else {
 				w.sc.Unknown = append(w.sc.Unknown, fmt.Sprintf("time.AfterFunc with unresolved callback at %s", m.Prog.Rel(call.Pos())))
 			}
@@ -931,7 +936,7 @@ func (w *walker) enterSlot(site *SubSite, k int, s *AV, fr frame) {
 	m := w.m
 	switch s.Kind {
 	case AVFunc:
-		w.enterFunc(s, nil, site.Call, frame{ctx: site.Src, slot: k, depth: fr.depth, via: fr.via})
+		w.enterFunc(s, nil, site.Call, frame{ctx: site.Src, slot: k, depth: fr.depth, via: fr.via, stack: fr.stack})
 	case AVMethodVal:
 		if name, ok := m.Obj.ObserverMethods[s.Method]; ok {
 			kind, withCtx, isEmit := emitKind(name)
@@ -1042,7 +1047,7 @@ func (w *walker) subscriptionCall(call *ast.CallExpr, name string, fr frame) {
 			_, argIsCall := ast.Unparen(a).(*ast.CallExpr) // an inlined helper's return already created the teardown context
 			if op.Arg.Kind == AVFunc && !argIsCall {
 				c := w.newCtx(KTeardown, fr.ctx, fr.slot, call, op.BasePos, fr.loop > 0, fr.via)
-				w.enterFunc(op.Arg, nil, call, frame{ctx: c, slot: -1, depth: fr.depth, via: fr.via})
+				w.enterFunc(op.Arg, nil, call, frame{ctx: c, slot: -1, depth: fr.depth, via: fr.via, stack: fr.stack})
 			}
 		}
 	case "AddUnsubscribable":
